@@ -7,7 +7,7 @@ From Coq Require Import List Arith ZArith.
 Import ListNotations.
 From YP Require Import Base.Str Term.Term Unify.Unify Unify.UnifyGen Lang.Ast Comp.IR Comp.CompileClause Sem.Machine
   Sem.Native Engine.GenMachine Engine.Restore Engine.RunGen Engine.IRMachine Engine.QueryFacts Engine.Refine Engine.RefineCompiled
-  Engine.RefineNative Engine.RefineExc Engine.RunMachine.
+  Engine.RefineNative Engine.RefineExc Engine.RefineRaising Engine.RunMachine.
 
 (* A unification generator created under ANY heap h and driven by ANY sequence of
    __next__ / close() (= drop) operations:
@@ -262,6 +262,15 @@ Theorem C03_pyrows_realizes : forall ir dyn ufix uvar rows vals raises,
   realizes ir dyn ufix uvar (pyrows rows raises) (pyrows_fun rows vals raises).
 Proof. exact pyrows_realizes. Qed.
 Print Assumptions C03_pyrows_realizes.
+
+(* ... and by the RAISING predicate of C20's exception_passthrough, Native.raising f j = "raises instead of delivering its answer
+   number j" (every point at which a user predicate raises): its text `n = 0; for row in rows: for _ in unify_arrays(args,
+   row): if n == j: raise E; yield v; n += 1` as machine code (pyrows_at, the counter is frame-local state) realizes
+   raising (native_rows rows vals) j - so the two theorems above and below cover the worlds `with_raising_fix` of C20 *)
+Theorem C03_raising_predicate_realized : forall ir dyn ufix uvar rows vals j,
+  realizes ir dyn ufix uvar (pyrows_at rows j) (raising (native_rows rows vals) j).
+Proof. exact pyrows_at_realizes. Qed.
+Print Assumptions C03_raising_predicate_realized.
 
 (* exception_passthrough at machine level.  NE.nqueryE = nquery carrying the exception OBJECT (XPy tag = the object a
    registered Python predicate raised).  If the query ends with the object e after the answers xs, the consumer of the
